@@ -525,13 +525,17 @@ def h_lemma_float_division(tier='quick', replay=None, k=8):
                      z3.BitVecSort(W))
     idiv  = z3.UDiv(a, b)
     iceil = z3.If(z3.URem(a, b) == 0, idiv, idiv + 1)
+    pre = [z3.ULE(a, 2 ** k), z3.ULE(b, 2 ** k), b != 0]
+    # vacuity: the premises are satisfiable (own solver: a second check() on
+    # the same solver would run in z3's much slower incremental mode)
+    s0 = z3.Solver()
+    s0.add(*pre)
+    if str(s0.check()) != 'sat':
+        return {'status': 'error', 'why': 'lemma premises unsatisfiable'}
     s = z3.Solver()
     # z3's timeout is wall-clock: generous, the machine may be loaded
     s.set('timeout', 3400000 if k > 8 else 560000)
-    s.add(z3.ULE(a, 2 ** k), z3.ULE(b, 2 ** k), b != 0)
-    # vacuity: the premises are satisfiable
-    if str(s.check()) != 'sat':
-        return {'status': 'error', 'why': 'lemma premises unsatisfiable'}
+    s.add(*pre)
     s.add(z3.Or(flb != idiv, ceb != iceil))
     t0 = time.time()
     r  = str(s.check())
